@@ -435,27 +435,27 @@ def StoreWT (s : Store) : Prop := ∀ o ∈ s.objs, ObjWT o
 /-! ### the cryptography backend as an oracle -/
 
 /-- the backend answered with bytes or with a KMIP error (it did not raise anything else) -/
-def Crypto.Bytes : Crypto → Prop
+def Crypto.IsBytes : Crypto → Prop
   | .ok _ => True
   | .kmipError _ => True
   | _ => False
 
-def Crypto.Pair : Crypto → Prop
+def Crypto.IsPair : Crypto → Prop
   | .ok2 .. => True
   | .kmipError _ => True
   | _ => False
 
-theorem cryptoToken_ni {cr : Crypto} (h : cr.Bytes) : NoInternal (cryptoToken cr) := by
+theorem cryptoToken_ni {cr : Crypto} (h : cr.IsBytes) : NoInternal (cryptoToken cr) := by
   unfold cryptoToken
-  cases cr <;> simp only [Crypto.Bytes] at h <;> first | exact NoInternal.pure _ | exact NoInternal.kerr _ _
+  cases cr <;> simp only [Crypto.IsBytes] at h <;> first | exact NoInternal.pure _ | exact NoInternal.kerr _ _
 
-theorem cryptoPair_ni {cr : Crypto} (h : cr.Pair) : NoInternal (cryptoPair cr) := by
+theorem cryptoPair_ni {cr : Crypto} (h : cr.IsPair) : NoInternal (cryptoPair cr) := by
   unfold cryptoPair
-  cases cr <;> simp only [Crypto.Pair] at h <;> first | exact NoInternal.pure _ | exact NoInternal.kerr _ _
+  cases cr <;> simp only [Crypto.IsPair] at h <;> first | exact NoInternal.pure _ | exact NoInternal.kerr _ _
 
 /-- `create_symmetric_key(alg, length)` returns `length / 8` bytes -/
 def Crypto.FitsCreate (c : Ctx) (ver : Nat) (tmpl : Option Template) (cr : Crypto) : Prop :=
-  cr.Bytes ∧ ∀ token d len msg, cr = .ok token → processTemplate? c ver tmpl = .ok d → reqLen d msg = .ok len →
+  cr.IsBytes ∧ ∀ token d len msg, cr = .ok token → processTemplate? c ver tmpl = .ok d → reqLen d msg = .ok len →
     hexBytes token * 8 = len
 
 /-! ### Create, CreateKeyPair, Register -/
@@ -506,7 +506,7 @@ theorem requireKeyAttrs_noInternal {c : Ctx} {d : AttrDict} (which : String) (hf
 
 theorem opCreateKeyPair_noInternal {c : Ctx} {e : Engine} {common priv pub : Option Template} {cr : Crypto}
     (hf : TableFacts c) (hc : TemplateOk? c common) (hpr : TemplateOk? c priv) (hpu : TemplateOk? c pub)
-    (hcr : cr.Pair) : NoInternal (opCreateKeyPair c e common priv pub cr) := by
+    (hcr : cr.IsPair) : NoInternal (opCreateKeyPair c e common priv pub cr) := by
   unfold opCreateKeyPair
   refine NoInternal.bind processTemplate?_noInternal (fun dpub hdpub => ?_)
   refine NoInternal.bind processTemplate?_noInternal (fun dpriv hdpriv => ?_)
@@ -558,7 +558,7 @@ theorem deriveBases_noInternal {c : Ctx} {e : Engine} (hs : StoreWT e.store) (ui
 /-- the derivation backend answered with bytes or a KMIP error -/
 theorem opDeriveKey_noInternal {c : Ctx} {e : Engine} {otype : Nat} {uids : List String} {tmpl : Option Template}
     {cr : Crypto} (hf : TableFacts c) (hs : StoreWT e.store) (ht : TemplateOk? c tmpl) (hu : uids ≠ [])
-    (hcr : cr.Bytes) : NoInternal (opDeriveKey c e otype uids tmpl cr) := by
+    (hcr : cr.IsBytes) : NoInternal (opDeriveKey c e otype uids tmpl cr) := by
   unfold opDeriveKey
   refine NoInternal.bind processTemplate?_noInternal (fun d hd => ?_)
   have hdo := processTemplate?_ok ht hd
